@@ -227,6 +227,18 @@ def expected_rows(frame_m, model, write_op):
     return rows, info
 
 
+def row_counts(frame_m, model, write_op):
+    chans = [model.objs[r['$ref']] for r in _lit_list(frame_m.kwargs.get('channels'))]
+    f0 = write_op.get('from_idx', 0) or 0
+    t0 = write_op.get('to_idx')
+    out = []
+    for c in chans:
+        a = channel_array(c, write_op)
+        if a is not None:
+            out.append(int(a[f0:t0].shape[0]))
+    return out
+
+
 def _lit_list(v):
     if v is None:
         return []
